@@ -127,6 +127,14 @@ class AsyncListener:
             # A query from a legacy source port is answered by unicast to that
             # source, the same bytes from another source are not a duplicate
             and (addrs[1] == _MDNS_PORT or addrs[:2] == self.last_message.source)
+            # The packets of a truncated query are held per source: two queriers
+            # with the same cache send the same bytes and each has to get its
+            # own query assembled. A copy from the same source is recognised
+            # where the packets are held
+            and not (
+                self.last_message.is_query()
+                and (self.last_message.truncated or (self._deferred and self._holds_truncated_query_of(addrs)))
+            )
         ):
             # Guard against duplicate packets
             if self.last_message.is_query() and self._registry.has_entries:
@@ -245,6 +253,10 @@ class AsyncListener:
         self._timers[key] = loop.call_at(
             loop.time() + delay, self._respond_query, None, addr, port, transport, v6_flow_scope
         )
+
+    def _holds_truncated_query_of(self, addrs: Union[Tuple[str, int], Tuple[str, int, int, int]]) -> bool:
+        """Are truncated query packets from this source being held?"""
+        return (addrs[0] if addrs[1] == _MDNS_PORT else (addrs[0], addrs[1])) in self._deferred
 
     def _cancel_any_timers_for_addr(self, addr: Union[_str, Tuple[_str, _int]]) -> None:
         """Cancel any future truncated packet timers for the address."""
